@@ -200,6 +200,32 @@ Section C09.
     unfold node_key, addr_key. congruence.
   Qed.
 
+  (* an entry whose wire form equals that of an entry of the family is of the family itself *)
+  Lemma wire_info_family_any v6 n n' :
+    family v6 n = true -> wire_info v6 n = wire_info v6 n' -> family v6 n' = true.
+  Proof.
+    intros Hf E. pose proof (f_equal (fun x => na_ip (ni_addr x)) E) as E2.
+    unfold family in *. unfold wire_info in E2. cbn [ni_addr na_ip] in E2. destruct v6.
+    - destruct (to4 (ip (n_addr n))) eqn:E4; [discriminate|]. rewrite (to16_of_non4 _ E4) in E2.
+      destruct (to4 (ip (n_addr n'))) as [y|] eqn:E4'; [exfalso|reflexivity].
+      destruct (ip_cases (ip (n_addr n'))) as [(H1 & _ & H2)|[(H1 & H2 & _)|(_ & _ & H2 & _)]].
+      + rewrite H2 in E2.
+        destruct (ip_cases (ip (n_addr n))) as [(G1 & _)|[(_ & _ & G2)|(_ & G1 & _)]].
+        * rewrite E2, app_length, H1 in G1. discriminate G1.
+        * rewrite E4 in G2. rewrite E2 in G2 at 1. rewrite firstn_app in G2.
+          change (firstn 12 v4_prefix) with v4_prefix in G2.
+          change (12 - length v4_prefix)%nat with 0%nat in G2. rewrite firstn_O, app_nil_r in G2.
+          assert (Hb : bytes_eqb v4_prefix v4_prefix = true) by (apply bytes_eqb_eq; reflexivity).
+          rewrite Hb in G2. discriminate.
+        * rewrite E2, app_length, H1 in G1. apply G1. reflexivity.
+      + rewrite H2 in E2. congruence.
+      + congruence.
+    - destruct (to4 (ip (n_addr n))) as [x|] eqn:E4; [|discriminate].
+      destruct (to4 (ip (n_addr n'))) as [y|] eqn:E4'; [reflexivity|exfalso].
+      pose proof (to4_length _ _ E4) as Hx. rewrite E2 in Hx.
+      destruct (ip_cases (ip (n_addr n'))) as [(_ & H2 & _)|[(H1 & _)|(H1 & _)]]; congruence.
+  Qed.
+
   Lemma wire_info_node s v6 n n' :
     Inv s -> In n (s_nodes s) -> In n' (s_nodes s) -> family v6 n = true -> family v6 n' = true ->
     wire_info v6 n = wire_info v6 n' -> n = n'.
@@ -364,8 +390,7 @@ Section C09.
     (forall n, In n (s_nodes s) -> node_good (s_now s) n = true -> family v6 n = true ->
                (n_slot n <= start_bucket target)%nat -> ~ In (wire_info v6 n) obs ->
        length obs = reply_k /\
-       forall n', In n' (s_nodes s) -> family v6 n' = true -> In (wire_info v6 n') obs ->
-                  (n_slot n <= n_slot n')%nat).
+       forall n', In n' (s_nodes s) -> In (wire_info v6 n') obs -> (n_slot n <= n_slot n')%nat).
   Proof.
     intros HI H. unfold Server.accept_closest in H.
     apply (accept_walk_sound s v6 reply_k HI) in H; [|lia].
@@ -378,8 +403,9 @@ Section C09.
       assert (Hcn : In (wire_info v6 n) (cands s v6 (n_slot n))).
       { apply cands_in. exists n. repeat split; auto. }
       destruct (Hd _ _ Hs Hcn Hout) as (Hlen & Hall). split; [lia|].
-      intros n' Hn' Hf' Hin'. destruct (Hall _ Hin') as (j' & H1 & H2 & H3).
+      intros n' Hn' Hin'. destruct (Hall _ Hin') as (j' & H1 & H2 & H3).
       apply cands_in in H3 as (n'' & Hn'' & Hs'' & _ & Hf'' & E).
+      assert (Hf' : family v6 n' = true) by (apply (wire_info_family_any v6 n'' n'); auto).
       assert (n' = n'') by (apply (wire_info_node s v6); auto). subst n''. lia.
   Qed.
 
@@ -431,16 +457,22 @@ Section C09.
     d = src /\ k = SReply /\ lists_from s src m ch r.
   Proof.
     intros H Hin Hr. unfold Server.dispatch in H.
-    repeat match goal with
-           | H0 : context[match ?x with _ => _ end] |- _ => destruct x eqn:?
+    repeat match type of H with
+           | context[match ?x with _ => _ end] => destruct x eqn:?
            end;
       try discriminate;
-      unfold lift, reply, send_error in *;
       repeat match goal with
-             | H0 : context[write_rated Store ?a ?b ?c ?e] |- _ =>
+             | H0 : (if ?c then _ else _) = _ |- _ => destruct c eqn:?
+             | H0 : match ?x with _ => _ end = _ |- _ => destruct x eqn:?
+             | H0 : Some _ = Some _ |- _ => inversion H0; subst; clear H0
+             end;
+      try discriminate;
+      unfold lift, reply, send_error in *;
+      repeat match type of H with
+             | context[write_rated Store ?a ?b ?c ?e] =>
                  let E := fresh "Ew" in destruct (write_rated Store a b c e) as [? ?] eqn:E
              end;
-      cbn [fst snd] in *;
+      cbn [fst snd] in H;
       inversion H; subst; clear H;
       repeat match goal with
              | H0 : In _ (_ ++ _) |- _ => apply in_app_iff in H0 as [H0|H0]
@@ -451,7 +483,7 @@ Section C09.
       | Ew : write_rated Store _ _ _ _ = (_, ?o), H0 : In _ ?o |- _ =>
           destruct (write_rated_sends _ _ _ _ _ _ _ _ _ Ew H0) as (-> & -> & ->)
       end;
-      cbn in Hr; try discriminate; inversion Hr; subst; clear Hr;
+      cbn [m_r reply_msg error_msg] in Hr; try discriminate; inversion Hr; subst; clear Hr;
       (split; [reflexivity|]); (split; [reflexivity|]).
     all: try (left; cbn; split; reflexivity).
     all: right.
@@ -460,12 +492,183 @@ Section C09.
                 end.
     all: match goal with
          | H0 : set_return_nodes _ _ ?a ?t _ ?rb = Some ?r1 |- _ =>
-             exists a, rb, r1; split; [reflexivity|]; split; [auto|]; split;
+             exists a, rb, r1; split; [assumption|]; split; [auto|]; split;
              [unfold target_of;
               repeat match goal with H1 : bytes_eqb _ _ = false |- _ => rewrite H1 end;
-              try match goal with H1 : m_q m = s_get_peers |- _ => rewrite H1 end;
+              try match goal with H1 : m_q _ = s_get_peers |- _ => rewrite H1 end;
               exact H0|cbn; auto]
          end.
+  Qed.
+
+  (* a datagram of an EPacket step is sent only by the query handlers, after the sender's table update *)
+  Lemma step_packet_sends s src size m ch s' out d rm k :
+    step s (EPacket src size (Some m)) ch = SR s' out -> In (ESend d rm k) out ->
+    passes_filters Store s src size /\ m_y m = s_q /\
+    exists s1 r,
+      update_node s src (option_map id_of (sender_id m)) (negb (m_ro m)) UQuery (ch_victim ch) = Ok (s1, r) /\
+      r <> BadChoice /\ dispatch s1 src m ch = HQ s' out.
+  Proof.
+    unfold Server.step. intros H Hin.
+    destruct (N.eqb size (Z.to_N udp_buf)) eqn:E1; [inversion H; subst; destruct Hin|].
+    destruct (N.eqb (port src) 0) eqn:E2; [inversion H; subst; destruct Hin|].
+    destruct (Server.s_closed Store s) eqn:E3; [inversion H; subst; destruct Hin|].
+    destruct (blocked _ _) eqn:E4; [inversion H; subst; destruct Hin|].
+    apply N.eqb_neq in E1, E2.
+    split; [unfold passes_filters; auto|].
+    destruct (bytes_eqb (m_y m) s_q) eqn:Ey.
+    - apply bytes_eqb_eq in Ey. split; [exact Ey|].
+      unfold Server.handle_query in H.
+      destruct (update_node s src _ _ UQuery _) as [[s1 r]|] eqn:Eu; [|discriminate].
+      exists s1, r. split; [reflexivity|].
+      destruct r; try discriminate; (split; [discriminate|]);
+        (destruct (negb (c_hook cfg m)); [inversion H; subst; destruct Hin|];
+         destruct (c_passive cfg); [inversion H; subst; destruct Hin|];
+         destruct (dispatch s1 src m ch); try discriminate; inversion H; subst; reflexivity).
+    - exfalso. destruct (find _ _); [|inversion H; subst; destruct Hin].
+      destruct (update_node _ src _ _ UResponse _) as [[s1 r]|]; [|discriminate].
+      destruct r; try discriminate; inversion H; subst; destruct Hin as [F|[]]; discriminate.
+  Qed.
+
+  (* ================================================================ C09: the reply's node lists *)
+  (* Every datagram a step sends that carries a return dictionary goes to the asker; its node lists
+     are absent, or the query is find_node / get_peers / get with arguments and each list present
+     was wanted (BEP 32: explicit want, else the source's family) and is accepted by
+     [accept_closest] for the target the method names, against the table and clock of the state
+     after the sender's own table update (which are those of the post-state s'). *)
+  Theorem C09_reply_lists s src size m ch s' out d rm k r :
+    step s (EPacket src size (Some m)) ch = SR s' out -> In (ESend d rm k) out -> m_r rm = Some r ->
+    d = src /\ k = SReply /\ m_y m = s_q /\
+    ((r_nodes r = None /\ r_nodes6 r = None) \/
+     exists a,
+       m_a m = Some a /\ (m_q m = s_find_node \/ m_q m = s_get_peers \/ m_q m = s_get) /\
+       (forall l, r_nodes r = Some l ->
+          l <> [] /\ should_return_nodes (want_list a) (ip src) = true /\
+          accept_closest s' false (target_of m a) l = true) /\
+       (forall l, r_nodes6 r = Some l ->
+          l <> [] /\ should_return_nodes6 (want_list a) (ip src) = true /\
+          accept_closest s' true (target_of m a) l = true)).
+  Proof.
+    intros Hstep Hin Hr.
+    destruct (step_packet_sends _ _ _ _ _ _ _ _ _ _ Hstep Hin) as (_ & Hy & s1 & r0 & _ & _ & Hd).
+    destruct (dispatch_frame Store w_put w_get sha1 id_secure cfg _ _ _ _ _ _ Hd) as [Hn Ht].
+    destruct (dispatch_sends _ _ _ _ _ _ _ _ _ _ Hd Hin Hr) as (-> & -> & Hl).
+    split; [reflexivity|]. split; [reflexivity|]. split; [exact Hy|].
+    destruct Hl as [Hl|(a & rb & r1 & Ha & Hq & Hs & E4 & E6)]; [left; exact Hl|right].
+    exists a. split; [exact Ha|]. split; [exact Hq|].
+    unfold Server.set_return_nodes in Hs.
+    match type of Hs with (if ?c then _ else _) = _ => destruct c eqn:Eok; [|discriminate] end.
+    inversion Hs; subst r1; clear Hs. cbn [Msg.r_nodes Msg.r_nodes6] in E4, E6.
+    apply andb_true_iff in Eok as [Eok4 Eok6].
+    split.
+    - intros l Hl. rewrite (accept_closest_ext s' s1) by assumption. rewrite E4 in Hl. destruct (ch_nodes ch) as [|c0 cs] eqn:Ec; [discriminate|].
+      cbn in Hl. inversion Hl; subst l. split; [discriminate|].
+      destruct (should_return_nodes _ _); [auto|discriminate].
+    - intros l Hl. rewrite (accept_closest_ext s' s1) by assumption. rewrite E6 in Hl. destruct (ch_nodes6 ch) as [|c0 cs] eqn:Ec; [discriminate|].
+      cbn in Hl. inversion Hl; subst l. split; [discriminate|].
+      destruct (should_return_nodes6 _ _); [auto|discriminate].
+  Qed.
+
+  (* ================================================================ C09: entry widths *)
+  Lemma compact_to4_eq b : Compact.to4 b = to4 b.
+  Proof. reflexivity. Qed.
+  Lemma compact_to16_eq b : Compact.to16 b = to16 b.
+  Proof. reflexivity. Qed.
+
+  Lemma port_enc_length p : length (Compact.port_enc p) = 2%nat.
+  Proof. reflexivity. Qed.
+
+  (* `nodes`: every accepted entry has a 20-byte id and a 4-byte address and is written by the
+     CompactIPv4NodeInfo encoder as exactly elem_CompactIPv4NodeInfo = 26 bytes *)
+  Theorem C09_gate_ipv4_26_bytes s target obs c :
+    accept_closest s false target obs = true -> Inv s -> In c obs ->
+    length (ni_id c) = 20%nat /\ length (na_ip (ni_addr c)) = 4%nat /\
+    Z.of_nat (length (Compact.nodeinfo_marshal (Compact.info4_conv c))) = elem_CompactIPv4NodeInfo.
+  Proof.
+    intros H HI Hin. destruct (accept_closest_sound _ _ _ _ HI H) as (_ & _ & Hb & _).
+    destruct (Hb c Hin) as (n & _ & -> & _ & _ & _ & _ & Hf).
+    unfold family in Hf. destruct (to4 (ip (n_addr n))) as [x|] eqn:E4; [|discriminate].
+    pose proof (to4_length _ _ E4) as Hx.
+    assert (Hw : wire_info false n = mkNI (ofN 20 (n_id n)) (mkNA x (Z.of_N (port (n_addr n))))).
+    { unfold wire_info. rewrite E4. reflexivity. }
+    rewrite Hw. cbn [ni_id ni_addr na_ip]. split; [apply ofN_length|]. split; [exact Hx|].
+    unfold Compact.nodeinfo_marshal, Compact.info4_conv, Compact.nodeaddr_marshal.
+    cbn [ni_id ni_addr na_ip na_port]. rewrite compact_to4_eq.
+    destruct (ip_cases x) as [(_ & Hx4 & _)|[(F & _)|(F & _)]]; [|congruence|congruence].
+    rewrite Hx4. cbn [Compact.ip_or_nil]. rewrite !app_length, ofN_length, Hx, port_enc_length.
+    reflexivity.
+  Qed.
+
+  (* `nodes6`: 20-byte id, 16-byte address, elem_CompactIPv6NodeInfo = 38 bytes *)
+  Theorem C09_gate_ipv6_38_bytes s target obs c :
+    accept_closest s true target obs = true -> Inv s -> In c obs ->
+    length (ni_id c) = 20%nat /\ length (na_ip (ni_addr c)) = 16%nat /\
+    Z.of_nat (length (Compact.nodeinfo_marshal (Compact.info6_conv c))) = elem_CompactIPv6NodeInfo.
+  Proof.
+    intros H HI Hin. destruct (accept_closest_sound _ _ _ _ HI H) as (_ & _ & Hb & _).
+    destruct (Hb c Hin) as (n & Hn & -> & _ & _ & _ & _ & Hf).
+    pose proof (inv_addr _ _ _ HI n Hn) as Hwf. unfold wf_addr, wf_ip in Hwf.
+    unfold family in Hf. destruct (to4 (ip (n_addr n))) as [x|] eqn:E4; [discriminate|].
+    destruct (ip_cases (ip (n_addr n))) as [(_ & F & _)|[(H16 & Hto16 & _)|(F1 & F2 & _)]];
+      [congruence| |destruct Hwf; congruence].
+    assert (Hw : wire_info true n = mkNI (ofN 20 (n_id n)) (mkNA (ip (n_addr n)) (Z.of_N (port (n_addr n))))).
+    { unfold wire_info. rewrite Hto16. reflexivity. }
+    rewrite Hw. cbn [ni_id ni_addr na_ip]. split; [apply ofN_length|]. split; [exact H16|].
+    unfold Compact.nodeinfo_marshal, Compact.info6_conv, Compact.nodeaddr_marshal.
+    cbn [ni_id ni_addr na_ip na_port]. rewrite compact_to16_eq, Hto16.
+    cbn [Compact.ip_or_nil]. rewrite !app_length, ofN_length, H16, port_enc_length.
+    reflexivity.
+  Qed.
+
+  (* the two lists never mix families: an IPv4 contact is never offered in nodes6 nor vice versa *)
+  Theorem C09_families_disjoint s target l4 l6 c :
+    Inv s -> accept_closest s false target l4 = true -> accept_closest s true target l6 = true ->
+    In c l4 -> In c l6 -> False.
+  Proof.
+    intros HI H4 H6 Hc4 Hc6.
+    destruct (C09_gate_ipv4_26_bytes _ _ _ _ H4 HI Hc4) as (_ & F4 & _).
+    destruct (C09_gate_ipv6_38_bytes _ _ _ _ H6 HI Hc6) as (_ & F6 & _). congruence.
+  Qed.
+
+  Theorem C09_pin : reply_k = 8%nat /\ K = 8%nat.
+  Proof. split; reflexivity. Qed.
+
+  (* ================================================================ C09: end to end *)
+  (* the content of [accept_closest_sound], as a predicate on the list *)
+  Definition closest_spec (s : sstate) (v6 : bool) (target : N) (obs : list node_info) : Prop :=
+    NoDup obs /\ (length obs <= reply_k)%nat /\
+    (forall c, In c obs ->
+       exists n, In n (s_nodes s) /\ c = wire_info v6 n /\ node_good (s_now s) n = true /\
+                 n_lr n <> None /\ n_id n <> c_root cfg /\
+                 (n_slot n <= start_bucket target)%nat /\ family v6 n = true) /\
+    (forall n, In n (s_nodes s) -> node_good (s_now s) n = true -> family v6 n = true ->
+               (n_slot n <= start_bucket target)%nat -> ~ In (wire_info v6 n) obs ->
+       length obs = reply_k /\
+       forall n', In n' (s_nodes s) -> In (wire_info v6 n') obs -> (n_slot n <= n_slot n')%nat).
+
+  Theorem C09_reply_contacts s src size m ch s' out d rm k r (v6 : bool) l :
+    Inv s' ->
+    step s (EPacket src size (Some m)) ch = SR s' out -> In (ESend d rm k) out -> m_r rm = Some r ->
+    (if v6 then r_nodes6 r else r_nodes r) = Some l ->
+    exists a,
+      m_a m = Some a /\ m_y m = s_q /\ (m_q m = s_find_node \/ m_q m = s_get_peers \/ m_q m = s_get) /\
+      (if v6 then should_return_nodes6 (want_list a) (ip src)
+       else should_return_nodes (want_list a) (ip src)) = true /\
+      l <> [] /\ closest_spec s' v6 (target_of m a) l /\
+      (forall c, In c l -> length (ni_id c) = 20%nat /\
+                           length (na_ip (ni_addr c)) = (if v6 then 16%nat else 4%nat)).
+  Proof.
+    intros HI Hstep Hin Hr Hl.
+    destruct (C09_reply_lists _ _ _ _ _ _ _ _ _ _ _ Hstep Hin Hr) as (_ & _ & Hy & Hc).
+    destruct Hc as [[H4 H6]|(a & Ha & Hq & Hn4 & Hn6)].
+    { destruct v6; congruence. }
+    exists a. split; [exact Ha|]. split; [exact Hy|]. split; [exact Hq|].
+    destruct v6.
+    - destruct (Hn6 l Hl) as (Hne & Hw & Hacc). split; [exact Hw|]. split; [exact Hne|].
+      split; [exact (accept_closest_sound _ _ _ _ HI Hacc)|].
+      intros c Hc. destruct (C09_gate_ipv6_38_bytes _ _ _ _ Hacc HI Hc) as (G1 & G2 & _). auto.
+    - destruct (Hn4 l Hl) as (Hne & Hw & Hacc). split; [exact Hw|]. split; [exact Hne|].
+      split; [exact (accept_closest_sound _ _ _ _ HI Hacc)|].
+      intros c Hc. destruct (C09_gate_ipv4_26_bytes _ _ _ _ Hacc HI Hc) as (G1 & G2 & _). auto.
   Qed.
 
 End C09.
